@@ -7,7 +7,7 @@ SRC="$1"; NAME="$2"; PROP="$3"
 WT=/tmp/seed/confirm-$NAME
 LOG=/tmp/seed/confirm-$NAME.log
 : > "$LOG"
-git -C /repo worktree add -q --detach "$WT" HEAD || exit 2
+git -C /repo worktree add -q --detach "$WT" "${BASE:-HEAD}" || exit 2
 cleanup() { git -C /repo worktree remove --force "$WT" >/dev/null 2>&1; }
 trap cleanup EXIT
 cd "$WT" || exit 2
@@ -17,10 +17,10 @@ DEMO=seed_demo_$(echo "$NAME" | tr 'A-Z-' 'a-z_')
 cp "$SRC/demo.rs" "crates/$CRATE/tests/$DEMO.rs"
 export CARGO_NET_OFFLINE=true
 # 1. demo without the patch: must pass
-cargo test -q -p "$CRATE" --test "$DEMO" --offline -j 8 >>"$LOG" 2>&1; RC_CLEAN=$?
+flock /tmp/seed/epmd.lock cargo test -q -p "$CRATE" --test "$DEMO" --offline -j 8 >>"$LOG" 2>&1; RC_CLEAN=$?
 # 2. apply patch
 git apply "$SRC/patch.diff" >>"$LOG" 2>&1 || { echo "$NAME: patch does not apply"; exit 3; }
-cargo test -q -p "$CRATE" --test "$DEMO" --offline -j 8 >>"$LOG" 2>&1; RC_MUT=$?
+flock /tmp/seed/epmd.lock cargo test -q -p "$CRATE" --test "$DEMO" --offline -j 8 >>"$LOG" 2>&1; RC_MUT=$?
 # 3. baseline suite with the patch (demo removed)
 rm "crates/$CRATE/tests/$DEMO.rs"
 REPO_DIR="$WT" python3 /verif/tools/baseline.py >>"$LOG" 2>&1; RC_BASE=$?
@@ -29,14 +29,14 @@ echo "$NAME: demo-clean rc=$RC_CLEAN demo-mutant rc=$RC_MUT baseline rc=$RC_BASE
 if [ $RC_CLEAN -eq 0 ] && [ $RC_MUT -ne 0 ] && [ $RC_BASE -eq 0 ]; then
   D=/verif/seeded/$NAME; mkdir -p "$D"
   cp "$SRC/patch.diff" "$D/patch.diff"; cp "$SRC/demo.rs" "$D/demo.rs"; cp "$SRC/README.md" "$D/README.md" 2>/dev/null
-  python3 - "$D" "$NAME" "$PROP" "$CRATE" "$BASELINE_LINE" <<'PY'
+  python3 - "$D" "$NAME" "$PROP" "$CRATE" "$BASELINE_LINE" "${BASE:-HEAD}" <<'PY'
 import json,sys,subprocess
-d,name,prop,crate,bl=sys.argv[1:6]
+d,name,prop,crate,bl,base=sys.argv[1:7]
 readme=open(d+'/README.md').read() if __import__('os').path.exists(d+'/README.md') else ''
 meta={"name":name,"breaks_property":prop,"demo_crate":crate,
- "base_commit":subprocess.run(['git','-C','/repo','rev-parse','--short','HEAD'],capture_output=True,text=True).stdout.strip(),
+ "base_commit":subprocess.run(['git','-C','/repo','rev-parse','--short',base],capture_output=True,text=True).stdout.strip(),
  "needs_to_manifest":"see README.md (written by the independent sub-agent that produced the change)",
- "confirmed":{"how":"tools/confirm_seed.sh in a scratch worktree of /repo HEAD","demo_without_patch":"pass","demo_with_patch":"fail","existing_suite_with_patch":bl},
+ "confirmed":{"how":"tools/confirm_seed.sh in a scratch worktree of /repo at the base commit","demo_without_patch":"pass","demo_with_patch":"fail","existing_suite_with_patch":bl},
  "detected_by":[]}
 json.dump(meta,open(d+'/meta.json','w'),indent=1)
 PY
